@@ -47,6 +47,9 @@ type Outer struct {
 	E  Emb
 	PE *Emb
 	ME map[string]Emb
+	// pointer to a map (round 7): a path may end here; it must not continue below — the request-time walkers follow a
+	// pointer only to a struct, so Compile has to refuse the step (extractFieldType: "intermediate type is not valid")
+	PM *map[string]string
 }
 
 // Emb embeds one struct by value and one by pointer: the fields of Leaf (A, B) and of Inner (X, Y, Z, L, PL,
@@ -119,6 +122,7 @@ var syms = []string{
 	"k", "j", "a", "b", "c", "nope", "PA",
 	"E", "PE", "ME", "Leaf", "Inner", "W", "hid", "Q",
 	"Emb", "V",
+	"PM",
 }
 var symIdx = func() map[string]int {
 	m := map[string]int{}
